@@ -90,6 +90,13 @@ theorem solver_sound (P : Problem Var Val) (hwf : P.WF) (s : Asg Var Val) (hs : 
         rw [preprocess_cons, List.mem_filter]
         exact ⟨hc, by simpa using hlen⟩
 
+/-- the worked problem is well formed and has six solutions; the search branches on x₁ first (two constraints), tries
+`2` (nothing), then `1`, then `0` -/
+example : exampleProblem.WF := ⟨by decide, by decide⟩
+example : solve exampleProblem =
+    [[(0, 2), (2, 2), (1, 1)], [(0, 0), (2, 2), (1, 1)], [(2, 1), (0, 1), (1, 0)], [(2, 2), (0, 1), (1, 0)],
+     [(2, 1), (0, 2), (1, 0)], [(2, 2), (0, 2), (1, 0)]] := by decide
+
 /-- a constraint without variables is ignored by the solver (it sits in no `vconstraints` list): the false constraint
 over no variables does not stop the solution from being yielded -/
 theorem solver_sound_counterexample :
@@ -135,6 +142,8 @@ theorem solver_complete (P : Problem Var Val) (hwf : P.WF) (a : Var → Val) (hs
   obtain ⟨v, hv⟩ := (unassigned_false_iff s x).mp (htot x hx)
   rw [hv, hag x v hv]
 
+example : exampleProblem.Sol (fun x => if x = 1 then 0 else 2) := ⟨by decide, by decide⟩
+
 /-- **No duplicates**: when the domains list no value twice, no two yielded dicts are equal (they differ on some
 variable of the problem). -/
 theorem solver_nodup (P : Problem Var Val) (hdn : ∀ e ∈ P.vars, e.2.Nodup) :
@@ -149,6 +158,8 @@ theorem solver_nodup (P : Problem Var Val) (hdn : ∀ e ∈ P.vars, e.2.Nodup) :
     rw [hvis]
     simp only [Problem.domain, hdom, Option.getD_some]
     exact List.Pairwise.filter _ (hdn (x, dom) (lookup_mem x P.vars dom hdom))
+
+example : ∀ e ∈ exampleProblem.vars, e.2.Nodup := by decide
 
 /-- **Order of the enumeration**: the solver branches first on `firstVar` (most constraints, then fewest values, then
 smallest name) and tries the values of its domain from the END of the list: the solutions come in consecutive blocks,
@@ -183,6 +194,9 @@ theorem solver_order (P : Problem Var Val) (var : Var) (hv : P.firstVar = some v
         | cons hb _ ih => exact .cons (fun s hs => hb s hs var _ (by simp)) ih
       exact conv _ _ h2
 
+example : exampleProblem.firstVar = some 1 ∧ exampleProblem.domain 1 = [0, 1, 2] ∧
+    (solve exampleProblem).map (·.lookup 1) = [some 1, some 1, some 0, some 0, some 0, some 0] := by decide
+
 /-- **Preferred first**: when the assignment made of the LAST value of every domain satisfies all constraints, it is
 the first one yielded. -/
 theorem solver_preferred_first (P : Problem Var Val) (hwf : P.WF) (a : Var → Val)
@@ -210,6 +224,10 @@ theorem solver_preferred_first (P : Problem Var Val) (hwf : P.WF) (a : Var → V
   refine ⟨s, hs, fun x hx => ?_⟩
   obtain ⟨v, hv⟩ := (unassigned_false_iff s x).mp (htot x hx)
   rw [hv, hag x v hv]
+
+example : exampleProblem2.WF ∧ (∀ e ∈ exampleProblem2.vars, e.2.getLast? = some ((fun x => if x = 0 then 1 else 0) e.1)) ∧
+    (∀ c ∈ exampleProblem2.cons, c.pred (restr c.scope (fun x => if x = 0 then 1 else 0)) = true) ∧
+    solve exampleProblem2 = [[(1, 0), (0, 1)], [(1, 1), (0, 0)]] := ⟨⟨by decide, by decide⟩, by decide, by decide, by decide⟩
 
 end Pkgcore.C10.Solver
 
@@ -288,6 +306,9 @@ theorem solutions_exact_faithful (inp : Inputs) (ts : List Dep) (hne : nonEmptyL
     refine ⟨s, hs, ?_⟩
     rw [render_of_is inp ts s _ his]
     exact hshape.symm
+
+/-- `^^ ( a b ) c? ( a )` has no empty group -/
+example : nonEmptyL [.grp .justOne [.leaf ['a'] none, .leaf ['b'] none], .cond false ['c'] [.leaf ['a'] none]] = true := by decide
 
 /-- `|| ( )` (an empty group, which the parser never builds) compiles to a constraint without variables; the real solver
 never calls such a constraint, so the false rule does not stop the (empty) assignment from being yielded -/
